@@ -35,6 +35,26 @@ def rets_of(fi):
         isinstance(p, (ast.FunctionDef, ast.Lambda)) and p is not fi.node for p in parents(n))]
 
 
+def _bit_table_ok(fi, rr, s_, o_, op):
+    """every return of the reflected operator, with the Boolean self replaced by 0 and by 1, is `other op 0` / `other op 1`:
+         other << b = other * 2^b       other >> 0 = other, other >> 1 kept as a term       other ** 0 = 1, other ** 1 = other"""
+    from ..flatten import resolve_locals
+    O = P.sym(o_)
+    half = P.sym("%s >> 1" % o_)
+    want = {"lshift": (O, O * 2), "rshift": (O, half), "pow": (P.const(1), O)}[op]
+    for r in rr:
+        if r.value is None or norm(r.value) == "NotImplemented":
+            continue
+        e = resolve_locals(fi.node, r.value)
+        inner = e.args[0] if isinstance(e, ast.Call) and norm(e.func).split(".")[-1] in ("LinComb", "LinCombBool", "ConstVal") and e.args else e
+        for b in (0, 1):
+            env = {"%s.lc" % s_: P.const(b), s_: P.const(b), "%s >> 1" % o_: half, "(%s >> 1)" % o_: half, "%s // 2" % o_: half}
+            p = poly_of(inner, env, strict=False)
+            if p is None or p != want[b]:
+                return False
+    return True
+
+
 def rule_reflected(repo, rule):
     for mod, cn in ((RT, "LinComb"), ("pysnark.boolean", "LinCombBool"), ("pysnark.array", "Array")):
         ci = repo.cls(mod, cn)
@@ -74,6 +94,8 @@ def rule_reflected(repo, rule):
                     continue
             if t in good:
                 rule.ok(fi.loc(), fi.fq, "%s: %s" % (name, t), "computes (left operand) %s self" % OPSYM.get(op, op))
+            elif cn == "LinCombBool" and op in ("lshift", "rshift", "pow") and _bit_table_ok(fi, rr, s_, o_, op):
+                rule.ok(fi.loc(), fi.fq, "%s: %s" % (name, t), "for both values of the bit it equals other %s bit (evaluated with self.lc = 0 and 1)" % OPSYM.get(op, op))
             else:
                 rule.violation(fi.loc(), fi.fq, "%s: %s" % (name, t), "reflected operator does not compute `other %s self`" % OPSYM.get(op, op),
                                "%s/refl/%s" % (ci.fq, name))
@@ -283,7 +305,40 @@ def rule_correspondence(repo, rule):
     if at in ("if_then_else(%s >= 0, %s, -%s)" % (s_, s_, s_), "if_then_else(%s < 0, -%s, %s)" % (s_, s_, s_)):
         rule.ok(ab.loc(), ab.fq, at)
     else:
-        rule.violation(ab.loc(), ab.fq, at, "abs is not select(x >= 0, x, -x)", "abs")
+        # any other construction (e.g. recomposing the magnitude bits of the sign test): the value returned, path by path with
+        # checks on and split on the sign, must be x for x >= 0 and -x for x < 0
+        from ..hints import paths_to as _ptab, all_cases as _acab
+        verdict, detail = None, ""
+        x = P.sym("x")
+        for r_ in rr:
+            for pth in _ptab(ab.node, r_):
+                if any(norm(t_) == "ignore_errors()" and pol_ for t_, pol_ in pth.conds):
+                    continue
+                for nonneg in (True, False):
+                    def _assume(pth=pth, nonneg=nonneg):
+                        v_ = Valuer({s_: x})
+                        v_.assume(ast.parse("ignore_errors()", mode="eval").body, False)
+                        v_.assume(ast.parse("is_guard()", mode="eval").body, True)
+                        v_.assume(ast.parse("%s.value >= 0" % s_, mode="eval").body, nonneg)
+                        pre_assume(v_, pth)
+                        return v_
+                    def _build(v_, pth=pth, r_=r_, nonneg=nonneg):
+                        replay(v_, pth)
+                        return v_._p(r_.value) - (x if nonneg else -x)
+                    for desc, p_, _v in _acab(_build, _assume):
+                        if isinstance(p_, str):
+                            if verdict is None:
+                                verdict, detail = "undecided", p_
+                        elif not p_.is_zero():
+                            verdict, detail = "violation", "x %s 0: result - |x| = %s" % (">=" if nonneg else "<", p_)
+                        elif verdict is None:
+                            verdict = "ok"
+        if verdict == "ok":
+            rule.ok(ab.loc(), ab.fq, at[:100], "returns x for x >= 0 and -x for x < 0 on every path with checks on")
+        elif verdict == "violation":
+            rule.violation(ab.loc(), ab.fq, at[:100] + "  [" + detail + "]", "abs is not select(x >= 0, x, -x)", "abs")
+        else:
+            rule.undecided(ab.loc(), ab.fq, at[:100], detail or "no return reached with checks on")
     pw = lc.methods["__pow__"]
     s_, o_ = pw.params[0], pw.params[1]
     txt = norm(pw.node.body)
@@ -328,7 +383,8 @@ def rule_sign(repo, rule):
     for name, fi in sorted(lc.methods.items()):
         # public-int arms: slices bounded by the operand
         for arm in ast.walk(fi.node):
-            if not (isinstance(arm, ast.If) and norm(arm.test).startswith("isinstance(") and norm(arm.test).endswith(", int)")):
+            if not (isinstance(arm, ast.If) and isinstance(arm.test, ast.Call) and norm(arm.test).startswith("isinstance(")
+                    and norm(arm.test).endswith(", int)") and arm.test.args):
                 continue
             p = arm.test.args[0].id if isinstance(arm.test.args[0], ast.Name) else None
             if p is None or p not in fi.params:
